@@ -23,10 +23,15 @@ type Inst struct {
 	Tokens []uint32           `json:"tokens"`
 	State  ring.InstanceState `json:"state"`
 	AgeSec int64              `json:"age_s"` // now - heartbeat timestamp, seconds (negative = future)
+	RO     bool               `json:"read_only,omitempty"`
 }
 
 func (i Inst) String() string {
-	return fmt.Sprintf("{%s z=%q %v %s age=%ds}", i.ID, i.Zone, i.Tokens, i.State, i.AgeSec)
+	ro := ""
+	if i.RO {
+		ro = " read-only"
+	}
+	return fmt.Sprintf("{%s z=%q %v %s age=%ds%s}", i.ID, i.Zone, i.Tokens, i.State, i.AgeSec, ro)
 }
 
 var LiveStates = []ring.InstanceState{ring.ACTIVE, ring.LEAVING, ring.PENDING, ring.JOINING}
@@ -40,6 +45,7 @@ type Opts struct {
 	Zones        []string // nil => unzoned
 	MinTok       int
 	MaxTok       int
+	ReadOnly     bool // a fifth of the members are flagged read-only (lookups by key do not treat them differently)
 	HealthyBias  bool // 75 % ACTIVE and fresh
 	UniformShare int  // 0..100: percentage of tokens drawn uniformly instead of from the alphabet (default 50)
 }
@@ -90,6 +96,9 @@ func Instances(rt *rapid.T, o Opts) []Inst {
 			in.State = rapid.SampledFrom(LiveStates).Draw(rt, "state")
 			in.AgeSec = rapid.SampledFrom(Ages).Draw(rt, "age")
 		}
+		if o.ReadOnly && rapid.IntRange(0, 4).Draw(rt, "readOnly") == 0 {
+			in.RO = true
+		}
 		out = append(out, in)
 	}
 	return out
@@ -103,6 +112,7 @@ func Desc(ins []Inst, now time.Time) *ring.Desc {
 			Id: in.ID, Addr: in.ID + ":1", Zone: in.Zone,
 			Tokens: append([]uint32(nil), in.Tokens...), State: in.State,
 			Timestamp: now.Unix() - in.AgeSec, RegisteredTimestamp: now.Unix() - 100000,
+			ReadOnly: in.RO, ReadOnlyUpdatedTimestamp: map[bool]int64{true: now.Unix() - 500, false: 0}[in.RO],
 		}
 	}
 	return d
